@@ -22,7 +22,8 @@ def _job(args):
     spec, seed, preempt, mons, want_trace, prefix, acc, acc_log = args
     from . import monitors, scen
     t0 = time.time()
-    run = scen.run_spec(spec, seed=seed, prefix=prefix, preempt=preempt)
+    mode = spec.get("_mode", "random")          # "first": canonical schedule after the prefix (systematic exploration)
+    run = scen.run_spec(spec, seed=seed, prefix=prefix, preempt=preempt, mode=mode)
     run.preempt_budget = preempt
     res = {"seed": seed, "preempt": preempt, "status": run.status, "virtual_s": run.now / 1e6, "events": len(run.trace),
            "choices": len(run.choices), "real_s": time.time() - t0, "violations": [], "blocked": run.blocked,
@@ -60,6 +61,8 @@ def _job(args):
         res["cc"] = run.results["cc"]
     if run.status not in ("all-finished",):
         res["violations"].append({"monitor": "sched", "kind": "hang", "what": f"run ended with status {run.status}; threads still blocked: {run.blocked}"})
+    if mode == "first":
+        res["choice_log"] = getattr(run, "choice_log", [])
     if res["violations"] or want_trace:
         res["trace"] = run.trace[:6000]
         res["choice_list"] = run.choices[:20000]
@@ -82,6 +85,38 @@ def explore(jobs, mons, want_trace=False, accept=None, accept_log_size=None):
     Returns list of results in order."""
     args = [(j[0], j[1], j[2], mons, want_trace, j[3] if len(j) > 3 else None, accept, accept_log_size) for j in jobs]
     return pool().map(_job, args, chunksize=max(1, len(args) // 64))
+
+
+def systematic(spec, mons, depth=2, max_runs=20000):
+    """Iterative context bounding (Musuvathi & Qadeer): the canonical schedule (at every scheduling decision the first ready thread) and
+    EVERY schedule that deviates from it at up to `depth` decisions, for one small scenario.  Exhaustive for that bound; returns
+    (results, stats).  Each result carries the explicit choice list, so a violation replays exactly."""
+    base = dict(spec, _mode="first")
+    level = [[]]                      # prefixes to run at this level
+    results = []
+    stats = {"runs": 0, "levels": [], "truncated": False}
+    for d in range(depth + 1):
+        if not level:
+            break
+        if stats["runs"] + len(level) > max_runs:
+            level = level[:max(0, max_runs - stats["runs"])]
+            stats["truncated"] = True
+        rs = explore([(base, 0, 0, pre) for pre in level], mons)
+        stats["runs"] += len(rs)
+        stats["levels"].append(len(rs))
+        nxt = []
+        for pre, r in zip(level, rs):
+            r["prefix"] = pre
+            results.append(r)
+            log = r.get("choice_log") or []
+            if d < depth:
+                for i in range(len(pre), len(log)):
+                    n, c = log[i]
+                    for a in range(n):
+                        if a != c:
+                            nxt.append([x for _, x in log[:i]] + [a])
+        level = nxt
+    return results, stats
 
 
 def close_pool():
